@@ -186,6 +186,18 @@ def map_cases(ctx):
                 problems.append(f"MAP_sample returned row {idx} with ln_post {tot[idx]} < max {tot.max()}")
             if float(row["ln_prior"][0]) != lp[idx] or float(row["ln_likelihood"][0]) != ll[idx]:
                 problems.append("returned row is not the row at the returned index")
+            if n > 1 and k % 2 == 0:
+                # the same table object after its ln_likelihood column was replaced so that the maximum moves: asked again, the row
+                # maximising the CURRENT columns is returned
+                ll2 = ll.copy()
+                ll2[idx] = (ll2[idx] if np.isfinite(ll2[idx]) else 0.0) - 1024.0
+                s["ln_likelihood"] = ll2
+                with np.errstate(all="ignore"):
+                    tot2 = lp + ll2
+                    want2 = int(np.argmax(tot2))
+                _, idx2 = MAP_sample(s, return_index=True)
+                if int(idx2) != want2 and not (tot2[int(idx2)] == tot2[want2]):
+                    problems.append(f"after the ln_likelihood column of the same table was replaced MAP_sample returns row {int(idx2)} (ln_post {tot2[int(idx2)]}), the maximum is at row {want2} ({tot2[want2]})")
         except Exception as e:
             idx, problems = None, [f"raised {type(e).__name__}: {e}"]
         out.append((case, idx, problems))
